@@ -169,12 +169,15 @@ def sample_api(r, forms=None, shapes=None, pkgidx=None, transport="grpc", other_
         elif form == "paged":
             resp = f.message(f"{rpc}Response")
             resp.field("items", 1, item.fqn, repeated=True).field("next_page_token", 2, "string")
-            svc.rpc(rpc, inp, resp.fqn, http=("post", "/v1/{parent=shelves/*}/items:list"), body="*")
+            svc.rpc(rpc, inp, resp.fqn, http=("post", "/v1/{parent=shelves/*}/items:list"), body="*", sigs=["parent"])
         elif form == "lro":
             f.dep("google/longrunning/operations.proto")
             rm = f.message(f"{rpc}Response"); rm.field("imported", 1, "int32")
             mm = f.message(f"{rpc}Metadata"); mm.field("progress", 1, "int32")
-            svc.rpc(rpc, inp, OPERATION, http=("post", "/v1/{name=items/*}:import"), body="*", lro=(rm.proto.name, mm.proto.name))
+            # two signatures: the flattened parameters are their union, in order
+            second = next((x.name for x in req.proto.field[1:] if not x.HasField("oneof_index")), None)
+            svc.rpc(rpc, inp, OPERATION, http=("post", "/v1/{name=items/*}:import"), body="*", lro=(rm.proto.name, mm.proto.name),
+                    sigs=["name"] + ([f"name,{second}"] if second else []))
         elif form == "void":
             f.dep("google/protobuf/empty.proto")
             svc.rpc(rpc, inp, EMPTY, http=("post", "/v1/{name=items/*}:delete"), body="*", sigs=["name"])
@@ -182,7 +185,8 @@ def sample_api(r, forms=None, shapes=None, pkgidx=None, transport="grpc", other_
             resp = f.message(f"{rpc}Response"); resp.field("chunk", 1, "bytes").field("seq", 2, "int64")
             cs, ss = {"server_stream": (False, True), "client_stream": (True, False), "bidi": (True, True)}[form]
             svc.rpc(rpc, inp, resp.fqn, cs=cs, ss=ss,
-                    http=("post", "/v1/{name=items/*}:watch") if form == "server_stream" else None, body="*" if form == "server_stream" else None)
+                    http=("post", "/v1/{name=items/*}:watch") if form == "server_stream" else None, body="*" if form == "server_stream" else None,
+                    sigs=["name"] if form == "server_stream" else [])
         info["services"]["Catalog"].append(rpc)
         info["forms"][rpc] = form
     if keyword_rpc:
